@@ -534,9 +534,16 @@ class ClientH(object):
     def key(self):
         return self.udp.conn.session_key_bytes if self.udp.conn else None
 
-    def connect(self, callback=True):
+    def connect(self, callback=True, raises=False):
+        """raises: the application's connect callback raises after it has noted the result (application bug; the library's
+        timers and state must not depend on how the callback returns)"""
         w = self.world
-        cb = (lambda ok: self.connect_cb.append((w.clock.t, ok))) if callback else None
+
+        def cb_(ok):
+            self.connect_cb.append((w.clock.t, ok))
+            if raises:
+                raise RuntimeError("application connect callback raised (injected by the harness)")
+        cb = cb_ if callback else None
         self.udp.connect(w.server_addr, cb)
         self._note_status()
 
@@ -566,6 +573,9 @@ class ClientH(object):
             try:
                 self.udp.update()
             except BlockingIOError as e:
+                if "injected by the harness" not in str(e):
+                    self.update_errors.append((w.clock.t, "%s: %s" % (type(e).__name__, e)))
+            except RuntimeError as e:
                 if "injected by the harness" not in str(e):
                     self.update_errors.append((w.clock.t, "%s: %s" % (type(e).__name__, e)))
             except Exception as e:
